@@ -1,3 +1,4 @@
 import NetqasmVerif.Model.Basic
 import NetqasmVerif.Model.Codec
 import NetqasmVerif.Model.Angle
+import NetqasmVerif.Model.Hub
